@@ -156,7 +156,7 @@ func typedCase(ctx context.Context, rep *mon.Reporter, rng *mon.Rand, cfg mon.Co
 	env := &tenv{atomic: anyAtomic(spec)}
 	ref := evalSpec(spec, pend{in, spec.In, !env.atomic && (splittable(in, spec.In) || in == nil), spec.In}, refEnv{atomic: env.atomic})
 
-	wit := map[string]any{"program": spec.render(), "spec": spec, "input": canon(in), "reference": ref.String(), "nil_sites": ref.eventsStr()}
+	wit := map[string]any{"program": spec.render(), "spec": spec, "input": canon(in), "reference": ref.String(), "nil_sites": ref.allEvents()}
 	b := buildSpec(spec, env)
 	if b.err != nil {
 		rep.Violation(ID+"/typed/build-error", "the generated program was rejected while it was declared: "+b.err.Error(), wit)
@@ -223,7 +223,7 @@ func judgeTyped(rep *mon.Reporter, spec *tspec, ref *rres, obs []tobs, wit map[s
 	for _, o := range obs {
 		lines = append(lines, o.String())
 	}
-	detail := "program: " + spec.render() + "\ninput: " + fmt.Sprint(wit["input"]) + "\nreference: " + ref.String() + " (nil sites: " + ref.eventsStr() + ")\nobserved:\n  " + strings.Join(lines, "\n  ")
+	detail := "program: " + spec.render() + "\ninput: " + fmt.Sprint(wit["input"]) + "\nreference: " + ref.String() + " (nil sites: " + ref.allEvents() + ")\nobserved:\n  " + strings.Join(lines, "\n  ")
 	wit["observed"] = lines
 
 	// panics and hangs: always violations, named after where they happen
@@ -327,6 +327,14 @@ func judgeTyped(rep *mon.Reporter, spec *tspec, ref *rres, obs []tobs, wit map[s
 		}
 	}
 	for _, class := range mon.SortedKeys(dev) {
-		rep.Violation(ID+"/typed/"+ref.eventsStr()+"/"+class+"/in-"+dev[class], detail, wit)
+		// which forms deviate: only Invoke, only forms that run the graph on streams, or both
+		forms := "in-value-and-stream-forms"
+		switch {
+		case dev[class] == "I":
+			forms = "in-invoke-only"
+		case !strings.Contains(dev[class], "I"):
+			forms = "in-stream-forms-only"
+		}
+		rep.Violation(ID+"/typed/"+ref.eventsStr()+"/"+class+"/"+forms, detail+"\ndeviating paradigms: "+dev[class], wit)
 	}
 }
